@@ -52,6 +52,7 @@ def make_synth_accumulator(I, names):
     acc = I.instantiate(I.prog.classes["SyntheticPartialsAccumulator"], [], {})
     base = synth.initial_state(I, names)
     acc.fields["_synthetic_partials"] = SDict(base=base)
+    I.heap_log.append(("store", acc, "_synthetic_partials", "<harness>", True, id(acc.fields["_synthetic_partials"])))
     return acc, base
 
 
